@@ -101,6 +101,10 @@ class ZorgFileCompiler(ZorgFileListener):
         self._add_tag("contexts", ctx.children[1].getText())
 
     def enterDate(self, ctx: ZorgFileParser.DateContext) -> None:  # noqa: D102
+        if not zdt.is_long_date_spec(ctx.DATE().getText()):
+            # The DATE token admits months up to 19 and days up to 39; such a
+            # word is not a date, so treat it like any other word.
+            return
         get_datetime = partial(
             dt.datetime.strptime, ctx.DATE().getText(), "%Y-%m-%d"
         )
